@@ -315,37 +315,83 @@ CERT_QUERIES = [("any", "signing"), ("any", "encryption"), (K_IDP, "signing"), (
 WITH_KINDS = [K_IDP, K_SP, K_AA, K_PDP, K_AUTHN, K_AFFIL]
 
 
-def ask_all(mds, universe):
-    """The fixed query set; mirrors C11.Corr.queries."""
+PER_ENTITY = 1 + len(SERVICE_QUERIES) + 2 + len(CERT_QUERIES) + 2 + 1 + 1       # queries per entity of the universe
+
+
+def n_queries(universe):
+    return PER_ENTITY * len(universe) + 1 + len(WITH_KINDS)
+
+
+def query_thunks(mds, universe):
+    """The query set in the listed order; mirrors C11.Corr.queries."""
     out = []
     for e in universe:
-        out.append(_guard(lambda: (lambda en: ["E", bool(en.get(K_AFFIL)), a_fp(en)])(mds[e])))
+        out.append(lambda e=e: (lambda en: ["E", bool(en.get(K_AFFIL)), a_fp(en)])(mds[e]))
         for typ, name, b in SERVICE_QUERIES:
-            out.append(_guard(lambda: _svc_answer(mds.service(e, typ, name, b))))
-        out.append(_guard(lambda: _svc_answer(mds.single_sign_on_service(e))))
-        out.append(_guard(lambda: _svc_answer(mds.assertion_consumer_service(e))))
+            out.append(lambda e=e, typ=typ, name=name, b=b: _svc_answer(mds.service(e, typ, name, b)))
+        out.append(lambda e=e: _svc_answer(mds.single_sign_on_service(e)))
+        out.append(lambda e=e: _svc_answer(mds.assertion_consumer_service(e)))
         for d, u in CERT_QUERIES:
             dd = d[:-len("_descriptor")] if d.endswith("_descriptor") else d
-            out.append(_guard(lambda: ["C", [cert_name(c) for _n, c in mds.certs(e, dd, u)]]))
+            out.append(lambda e=e, dd=dd, u=u: ["C", [cert_name(c) for _n, c in mds.certs(e, dd, u)]])
         for idx in (None, "1"):
-            def ar():
+            def ar(e=e, idx=idx):
                 res = mds.attribute_requirement(e, idx)
                 if res is None:
                     return ["N"]
                 return ["Q", [a["name"] for a in res["required"]], [a["name"] for a in res["optional"]]]
-            out.append(_guard(ar))
-        out.append(_guard(lambda: ["T", list(mds.entity_categories(e))]))
+            out.append(ar)
+        out.append(lambda e=e: ["T", list(mds.entity_categories(e))])
 
-        def reg():
+        def reg(e=e):
             g = mds.registration_info(e)
             return ["G", g["registration_authority"], g["registration_instant"],
                     [[l, t] for l, t in g["registration_policy"].items()]]
-        out.append(_guard(reg))
-    out.append(_guard(lambda: ["Y", list(mds.keys())]))
+        out.append(reg)
+    out.append(lambda: ["Y", list(mds.keys())])
     for kind in WITH_KINDS:
-        out.append(_guard(lambda: ["W", [[eid, [sv[2] for r in a_fp(en) for sv in r["svcs"]]] for eid, en in
-                                         mds.with_descriptor(kind[:-len("_descriptor")]).items()]]))
+        out.append(lambda kind=kind: ["W", [[eid, [sv[2] for r in a_fp(en) for sv in r["svcs"]]] for eid, en in
+                                            mds.with_descriptor(kind[:-len("_descriptor")]).items()]])
     return out
+
+
+def ask_all(mds, universe, order=None):
+    """Puts the query set in the given order (indices into the listed order; empty = as listed).  The order
+    matters: a lookup on an MDQ entity that is not cached fetches it."""
+    th = query_thunks(mds, universe)
+    return [_guard(th[i]) for i in (order or range(len(th)))]
+
+
+def order_listed(universe):
+    return []
+
+
+def order_service_first(universe):
+    """per entity: the service lookups, single_sign_on_service, assertion_consumer_service, then certs, ..., and
+    __getitem__ LAST; keys() and with_descriptor() before everything"""
+    n = PER_ENTITY * len(universe)
+    out = list(range(n, n + 1 + len(WITH_KINDS)))
+    for k in range(len(universe)):
+        base = k * PER_ENTITY
+        out += list(range(base + 1, base + PER_ENTITY)) + [base]
+    return out
+
+
+def order_random(rng, universe):
+    o = list(range(n_queries(universe)))
+    rng.shuffle(o)
+    return o
+
+
+def assign_orders(rng, cases):
+    """Every case gets an order for its query set: a third as listed (__getitem__ first), a third "service first",
+    a third a seeded permutation; witness cases keep the listed order."""
+    for i, c in enumerate(cases):
+        if "order" in c:
+            continue
+        k = i % 3
+        c["order"] = ([] if k == 0 else order_service_first(c["universe"]) if k == 1 else order_random(rng, c["universe"]))
+    return cases
 
 
 # ------------------------------------------------------------------------------------ running a history
@@ -499,7 +545,7 @@ def observe(case):
         out = []
         for step in case["steps"]:
             o = run.do(step)
-            o += ask_all(run.mds, case["universe"])
+            o += ask_all(run.mds, case["universe"], case.get("order"))
             out.append(o)
         return {"steps": out}
     finally:
@@ -660,7 +706,8 @@ def coq_case(case, obs):
         prev = qs
         steps.append("(%s, %s, %s)" % (c_op(fix_src(step)), clist(c_answer(a) for a in flag),
                                        clist("(%d, %s)" % (n, t) for n, t in terms)))
-    return "(%s, %s, %s)" % (cq(int(case["t0"])), clist(cs(e) for e in case["universe"]), clist(steps))
+    return "(%s, %s, %s, %s)" % (cq(int(case["t0"])), clist(cs(e) for e in case["universe"]),
+                                 clist("%d" % i for i in case.get("order") or []), clist(steps))
 
 
 def explain_term(term):
@@ -983,6 +1030,34 @@ def fam_witness(t0=T0):
         reload_([(g_src(rng, "remote", "s1", cert=True), _single(a, "tampered"))]),
         {"op": "server", "tbl": [["urn:e4", _single(e4, "valid")]]}, mdq(True),
         {"op": "tick", "dt": 3601}, {"op": "server", "tbl": []}], t0, uni))
+    for c in out:
+        c["order"] = []          # the witnesses are stated for the listed order
+    return out
+
+
+def fam_cold(rng, n, t0=T0):
+    """Cold MDQ entities met FIRST by a service / certs / keys / with_descriptor lookup: MDQ only, MDQ before a
+    static source that has the same ids with other endpoints, MDQ after one; clean single-EntityDescriptor answers
+    for every id, then a tick past the freshness period (cold again).  Orders: "service first" and permutations."""
+    out = []
+    for i in range(n):
+        cert = rng.random() < 0.4
+        period = 3600
+        tbl = [[e, _single(g_ent(rng, e, t0, invalid_ok=False, vu_choices=[None]), "valid" if cert else "unsigned")] for e in IDS]
+        steps = [{"op": "server", "tbl": tbl}]
+        mdq = load(g_src(rng, "mdq", "q1", cert=cert, period=period), {"st": "missing"}, False, "load")
+        pos = ["only", "first", "last"][i % 3]
+        stat = lambda: load(g_src(rng, rng.choice(["inline", "file"]), "s1"),
+                            doc_fetch({"group": True, "vu": None, "ents": [g_ent(rng, e, t0, False, [None]) for e in IDS]}))
+        if pos == "last":
+            steps.append(stat())
+        steps.append(mdq)
+        if pos == "first":
+            steps.append(stat())
+        steps.append({"op": "tick", "dt": period + 1})
+        c = mk("cold", steps, t0)
+        c["order"] = order_service_first(c["universe"]) if i % 2 == 0 else order_random(rng, c["universe"])
+        out.append(c)
     return out
 
 
@@ -996,6 +1071,8 @@ def generate(ctx):
     cases += fam_multi(rng, 1200 if big else 200)
     cases += fam_fail(rng, reps=4 if big else 1)
     cases += fam_mdq(rng, 1200 if big else 220)
+    cases += fam_cold(rng, 240 if big else 60)
+    assign_orders(rng, cases)
     rng.shuffle(cases)            # balances the Coq shards
     return cases
 
